@@ -27,7 +27,10 @@ CONSTANTS
   Cmds,        \* sequence of command kinds: "deploy" | "pause" | "stop" | "resume"
   Group,       \* Group[k] = set of targets introduced by command k ({} if not a deploy)
   Reqs,        \* client requests
-  Kinds,       \* request kinds that clients may choose: subset of {"plain","forever","upgrade"}
+  Kinds,       \* request kinds that clients may choose: subset of {"plain","slow","forever","upgrade","slowupgrade"}
+               \*   plain: ends by itself, always within any drain timeout (the proviso of C02/C03)
+               \*   slow: ends by itself or is cut, whichever comes first;  forever: never ends by itself
+               \*   upgrade: hijacked connection that never ends by itself;  slowupgrade: one that may
   MaxProbes,   \* probes per target
   AllowBad,    \* may targets answer probes with a failure?
   SignalAfterNotify,  \* variant: becameHealthy is closed after the rotation update (repair F1)
@@ -102,12 +105,17 @@ HcSend(t) ==                                   \* ticker / first probe
   /\ nprobe' = [nprobe EXCEPT ![t] = @ + 1]
   /\ UNCHANGED <<table, verLb, ts, saved, rot, became, hcOn, inflight, dr, snap, pstate, pgen, cm, next, res, rq, okEver, retired>>
 
-TgProbeReply(t, good) ==                       \* environment: the target answers (or fails / is too slow)
-  /\ hc[t] = "sent"
+TgProbeReply(t, good) ==                       \* environment: the probe completes (reply, error, or probe timeout) and is reported;
+  /\ hc[t] = "sent"                            \* a reply that raced a Close() is still reported (check() only drops context.Canceled)
   /\ good \/ AllowBad
-  /\ hc' = [hc EXCEPT ![t] = IF ~hcOn[t] THEN "off" ELSE IF good THEN "ok" ELSE "bad"]
+  /\ hc' = [hc EXCEPT ![t] = IF good THEN "ok" ELSE "bad"]
   /\ okEver' = [okEver EXCEPT ![t] = @ \/ good]
   /\ UNCHANGED <<table, verLb, ts, saved, rot, became, hcOn, nprobe, inflight, dr, snap, pstate, pgen, cm, next, res, rq, retired>>
+
+TgProbeDropped(t) ==                           \* the loop's context was cancelled while the probe was out: no report
+  /\ hc[t] = "sent" /\ ~hcOn[t]
+  /\ hc' = [hc EXCEPT ![t] = "off"]
+  /\ UNCHANGED <<table, verLb, ts, saved, rot, became, hcOn, nprobe, inflight, dr, snap, pstate, pgen, cm, next, res, rq, okEver, retired>>
 
 HcApply(t) ==                                  \* hook hc_result; locked section of HealthCheckCompleted
   /\ hc[t] \in {"ok", "bad"}
@@ -352,31 +360,39 @@ ReqClaim(r, t) ==                              \* claimTarget: next in rotation 
 
 TgBegin(r) ==                                  \* the target sees the request
   /\ rq[r].pc = "claimed"
-  /\ rq' = [rq EXCEPT ![r] = [@ EXCEPT !.pc = IF rq[r].kind = "upgrade" THEN "upgraded" ELSE "atTarget",
+  /\ rq' = [rq EXCEPT ![r] = [@ EXCEPT !.pc = IF rq[r].kind \in {"upgrade", "slowupgrade"} THEN "upgraded" ELSE "atTarget",
                                        !.lateBeg = retired[rq[r].tgt]]]
   /\ UNCHANGED <<table, verLb, ts, saved, rot, became, hcOn, hc, nprobe, inflight, dr, snap, pstate, pgen, cm, next, res, okEver, retired>>
 
 ReqEnd(r) ==                                   \* the target replies; endInflightRequest; client gets 200
-  /\ rq[r].pc = "atTarget" /\ rq[r].kind = "plain"
+  /\ rq[r].pc = "atTarget" /\ rq[r].kind \in {"plain", "slow"}
   /\ r \in inflight[rq[r].tgt]
   /\ inflight' = [inflight EXCEPT ![rq[r].tgt] = @ \ {r}]
   /\ rq' = [rq EXCEPT ![r] = [@ EXCEPT !.pc = "done", !.status = 200]]
   /\ UNCHANGED <<table, verLb, ts, saved, rot, became, hcOn, hc, nprobe, dr, snap, pstate, pgen, cm, next, res, okEver, retired>>
 
+UpgEnd(r) ==                                   \* an upgraded connection is closed by its peers; endInflightRequest
+  /\ rq[r].pc = "upgraded" /\ rq[r].kind = "slowupgrade"
+  /\ r \in inflight[rq[r].tgt]
+  /\ inflight' = [inflight EXCEPT ![rq[r].tgt] = @ \ {r}]
+  /\ rq' = [rq EXCEPT ![r] = [@ EXCEPT !.pc = "done"]]
+  /\ UNCHANGED <<table, verLb, ts, saved, rot, became, hcOn, hc, nprobe, dr, snap, pstate, pgen, cm, next, res, okEver, retired>>
+
 Finished ==                                    \* nothing left to do: stutter (so that deadlock checking is meaningful)
   /\ next > NCmds /\ cm.pc = "idle"
-  /\ \A r \in Reqs : rq[r].pc \in {"done", "upgraded"} \/ (rq[r].pc = "atTarget" /\ rq[r].kind = "forever")
+  /\ \A r \in Reqs : rq[r].pc \in {"done", "upgraded"} \/ (rq[r].pc = "atTarget" /\ rq[r].kind \in {"forever", "slow"})
   /\ UNCHANGED vars
 
 Next ==
   \/ \E t \in Targets : HcSend(t) \/ HcApply(t) \/ HcNotify(t) \/ HcStopped(t)
                         \/ DrainMark(t) \/ DrainSnapshot(t) \/ DrainWaitDone(t) \/ DrainDeadline(t) \/ DrainRestore(t)
   \/ \E t \in Targets, good \in BOOLEAN : TgProbeReply(t, good)
+  \/ \E t \in Targets : TgProbeDropped(t)
   \/ \E k \in CmdIds : DepCall(k) \/ PcPause(k) \/ PcStop(k) \/ PcResume(k) \/ CmdNotFound(k)
   \/ DepWaitOk \/ DepWaitTimeout \/ DepUpdateSlot \/ DepInstall \/ DrainAllDone \/ DepDisposeOld \/ CmdReturn
   \/ \E r \in Reqs, kind \in Kinds : CliSend(r, kind)
   \/ \E r \in Reqs : ReqRoute(r) \/ ReqGate(r) \/ ReqReleased(r) \/ ReqPauseTimeout(r) \/ ReqPickLb(r)
-                     \/ ReqClaimNone(r) \/ TgBegin(r) \/ ReqEnd(r)
+                     \/ ReqClaimNone(r) \/ TgBegin(r) \/ ReqEnd(r) \/ UpgEnd(r)
   \/ \E r \in Reqs, t \in Targets : ReqClaim(r, t)
   \/ Finished
 
@@ -458,17 +474,29 @@ W_GateClaim          == ~\E r \in Reqs : rq[r].gateclaim /\ rq[r].pc = "done"
 (* Liveness (checked under fairness without state constraint):             *)
 (* every issued command returns; every sent plain request is answered.     *)
 (***************************************************************************)
-Fairness ==
-  /\ \A t \in Targets : WF_vars(HcApply(t)) /\ WF_vars(HcNotify(t)) /\ WF_vars(DrainMark(t)) /\ WF_vars(DrainSnapshot(t))
-                        /\ WF_vars(DrainWaitDone(t)) /\ WF_vars(DrainDeadline(t)) /\ WF_vars(DrainRestore(t))
+FairnessBase ==
+  /\ \A t \in Targets : WF_vars(HcApply(t)) /\ WF_vars(HcNotify(t)) /\ WF_vars(HcStopped(t))
+                        /\ WF_vars((\E good \in BOOLEAN : TgProbeReply(t, good)) \/ TgProbeDropped(t))   \* a probe completes one way or the other
+                        /\ WF_vars(DrainMark(t)) /\ WF_vars(DrainSnapshot(t))
+                        /\ WF_vars(DrainWaitDone(t)) /\ WF_vars(DrainRestore(t))
   /\ WF_vars(DepWaitOk) /\ WF_vars(DepWaitTimeout) /\ WF_vars(DepUpdateSlot) /\ WF_vars(DepInstall)
   /\ WF_vars(DrainAllDone) /\ WF_vars(DepDisposeOld) /\ WF_vars(CmdReturn)
   /\ \A r \in Reqs : WF_vars(ReqRoute(r)) /\ WF_vars(ReqGate(r)) /\ WF_vars(ReqReleased(r)) /\ WF_vars(ReqPauseTimeout(r))
                      /\ WF_vars(ReqPickLb(r)) /\ WF_vars(ReqClaimNone(r)) /\ WF_vars(TgBegin(r)) /\ WF_vars(ReqEnd(r))
                      /\ WF_vars(\E t \in Targets : ReqClaim(r, t))
 
+Fairness == FairnessBase /\ \A t \in Targets : WF_vars(DrainDeadline(t))
+
 FairSpec == Spec /\ Fairness
+\* negative control: without the drain deadline a request that never ends keeps its command from returning
+FairSpecNoDeadline == Spec /\ FairnessBase
 
 L_CommandsReturn == \A k \in CmdIds : (cm.pc # "idle" /\ cm.k = k) ~> (res[k] # "" /\ ~(cm.pc # "idle" /\ cm.k = k))
 L_RequestsAnswered == \A r \in Reqs : (rq[r].pc = "sent" /\ rq[r].kind = "plain") ~> (rq[r].pc = "done")
+\* a held request of any kind leaves the gate (released, stopped, or its own max-pause timer)
+L_HeldLeaves == \A r \in Reqs : (rq[r].pc = "held") ~> (rq[r].pc # "held")
+\* the probe loop of a target whose load balancer was disposed stops for good
+L_ProbesStop == \A t \in Targets : (~hcOn[t] /\ hc[t] # "off") ~> (hc[t] = "off")
+\* a drain that was started completes
+L_DrainsComplete == \A t \in Targets : (dr[t] = "start") ~> (dr[t] \in {"done", "none"})
 =============================================================================
